@@ -134,6 +134,7 @@ def createDir (v nParent : Nat) (name : Bytes) : Prog RC := do
   let vc ← getVolCfg v
   let (rc, parent) ← readEntryBlock v nParent
   if rc ≠ rcOK then return rc
+  if isDIRCACHE vc.dosType ∧ !(← hasFreeBlocks v 3) then return rcVolFull
   let (ns, parent) ← createEntry v parent name
   match ns with
   | none => return rcError
@@ -159,6 +160,7 @@ def createFile (v nParent : Nat) (name : Bytes) : Prog (RC × Blk) := do
   let vc ← getVolCfg v
   let (rc, parent) ← readEntryBlock v nParent
   if rc ≠ rcOK then return (rc, zeroBlk)
+  if isDIRCACHE vc.dosType ∧ !(← hasFreeBlocks v 2) then return (rcVolFull, zeroBlk)
   let (ns, parent) ← createEntry v parent name
   match ns with
   | none => return (rcError, zeroBlk)
@@ -283,6 +285,7 @@ def renameEntry (v pSect : Nat) (oldName : Bytes) (nPSect : Nat) (newName : Byte
   match ns with
   | none => return rcError
   | some nSect =>
+    if isDIRCACHE vc.dosType ∧ !(← hasFreeBlocks v 1) then return rcVolFull
     -- pre-checks (nothing is modified before the request is known to be valid)
     let (rc, chk) ← readEntryBlock v nPSect
     if rc ≠ rcOK then return rc
@@ -342,6 +345,7 @@ def setEntryComment (v parSect : Nat) (name newCmt : Bytes) : Prog RC := do
   match ns with
   | none => return rcError
   | some nSect =>
+    if isDIRCACHE vc.dosType ∧ !(← hasFreeBlocks v 1) then return rcVolFull
     let c := newCmt.take 79
     let entry := (entry.setByte O_commLen c.length).setBytes O_comment c
     let (rc, entry) ← if entry.secType = ST_DIR then writeDirBlock v nSect entry
